@@ -225,7 +225,21 @@ func (g *ygen) doc(i, nd int) *YDocG {
 		return d
 	}
 	// root
-	if g.o.RootScalars && r.IntN(25) == 0 {
+	if g.o.RootScalars && g.o.Boundaries && i == 0 && r.IntN(40) == 0 {
+		// the stream opens with leading content (a marker or a comment block) in front of an explicit null root
+		d.Root = &YN{Kind: YScalar, Tag: "!!null", Value: []string{"~", "null", "Null", "NULL"}[r.IntN(4)], Style: "plain"}
+		g.feat["root:scalar"] = true
+		g.feat["root:explicit_null_first"] = true
+		g.feat["type:null"] = true
+		if !d.Start {
+			if r.IntN(2) == 0 {
+				d.Start = true
+				g.feat["bound:leading_sep"] = true
+			} else {
+				g.cden = 100
+			}
+		}
+	} else if g.o.RootScalars && r.IntN(25) == 0 {
 		d.Root = g.scalar(false, true)
 		g.feat["root:scalar"] = true
 		if d.Root.Zero { // an empty root is the empty document
